@@ -127,8 +127,7 @@ def classify(c, impl, model=None):
         return "WildcardReplayDropsTypes"
     if "(ORDER)" in why and model and not shardprop.diffs(c, impl, model):
         return "CompactionScramblesContextOrder" if "after-compaction" in why else "MemtableAndSegmentFlowsInterleave"
-    if "(MEMBERSHIP)" in why and model and not shardprop.diffs(c, impl, model) and re.search(r"stalerows=[0-9]", model):
-        return "SegmentLabelReusedStaleCache"
+    # SegmentLabelReusedStaleCache was repaired by a19e65f and is no longer an accepted class
     return None
 
 
